@@ -1158,7 +1158,7 @@ def run(ctx):
     def emit_run(job):
         fam, p, n = job
         cfg, defs = model(fam, tier, p, n)
-        return tlc.run(MODULE, cfg, defs=defs, workers=1, timeout=1500, env=JVM_ENV)
+        return tlc.run(MODULE, cfg, defs=defs, workers=1, timeout=3600, env=JVM_ENV)
 
     # Per-action coverage: every emitted case names its action (kind <-> action is one to one), so the firing counts
     # are taken from the emission itself.  TLC's -coverage instrumentation is not used: on this module it is 4x
@@ -1167,7 +1167,7 @@ def run(ctx):
         flag, (fam, law), is_dev = item
         cfg, defs = model(fam, tier if fam != "value" else "quick", dev=[flag] if is_dev else (),
                           hyp=() if is_dev else [flag], emit=False, laws=[law])
-        return flag, law, tlc.run(MODULE, cfg, defs=defs, timeout=900, env=JVM_ENV)
+        return flag, law, tlc.run(MODULE, cfg, defs=defs, timeout=3600, env=JVM_ENV)
 
     # stage T: record the real code on seeded random inputs now, let TLC validate them next to the other runs
     from . import c17_trace
